@@ -626,6 +626,17 @@ fn build_write_script(rng: &mut Rng, w: u64) -> Vec<WStep> {
             }
             s.push(WStep::FlushHandle { slot: 0 });
             s.push(WStep::CloseHandle { slot: 0 });
+            if name == "/b" {
+                // overwriting in place, several buffers' worth without a flush in between:
+                // the write-backs are started by write() itself, inside the stored length
+                s.push(WStep::OpenExisting { slot: 0, path: "/b".into() });
+                s.push(WStep::Seek { slot: 0, to: 100 });
+                for _ in 0..3 {
+                    s.push(WStep::Write { slot: 0, len: 1024 });
+                }
+                s.push(WStep::FlushHandle { slot: 0 });
+                s.push(WStep::CloseHandle { slot: 0 });
+            }
         }
         s.push(WStep::FlushFile);
         return s;
